@@ -72,13 +72,15 @@ type leafer struct {
 	out       map[string]bool
 	seen      map[seenKey]bool
 	seenField map[types.Object]bool
+	seenParam map[types.Object]bool
+	inField   int // > 0 while the assignments of a struct field are followed
 	steps     int
 }
 
 const leafBudget = 20000
 
 func (a *wana) leavesOf(f *wfunc, e ast.Expr) []string {
-	l := &leafer{a: a, out: map[string]bool{}, seen: map[seenKey]bool{}, seenField: map[types.Object]bool{}}
+	l := &leafer{a: a, out: map[string]bool{}, seen: map[seenKey]bool{}, seenField: map[types.Object]bool{}, seenParam: map[types.Object]bool{}}
 	l.expr(&lenv{fn: f}, e, -1)
 	var res []string
 	for s := range l.out {
@@ -234,14 +236,16 @@ func (l *leafer) ident(env *lenv, id *ast.Ident, want int) {
 				return
 			}
 		}
-		if isDataType(v.Type()) {
-			l.add("param")
-		} else {
-			l.typeSource(v.Type())
-		}
 		var fr *lenv = env
 		if ev != nil {
 			fr = ev
+		}
+		if isDataType(v.Type()) {
+			if !l.paramAtCallSites(fr, v) {
+				l.add("param")
+			}
+		} else {
+			l.typeSource(v.Type())
 		}
 		if isDataType(v.Type()) && len(fr.fn.root.stmts[v]) > 0 {
 			l.local(fr, v, want)
@@ -260,6 +264,36 @@ func (l *leafer) ident(env *lenv, id *ast.Ident, want int) {
 		}
 	}
 	l.typeSource(v.Type())
+}
+
+// paramAtCallSites: while a struct field is followed (s.urlPrefix = f(addr, key) inside a helper
+// setAPIKey(addr, key)) a parameter of the function that assigns the field stands for the arguments
+// at the function's call sites IN THE SAME PACKAGE — an assignment moved into a helper is followed as
+// if it stood at the call.  A function without such call sites (an entry point of the package, a
+// closure handed to another package) keeps `param`.
+func (l *leafer) paramAtCallSites(fr *lenv, v types.Object) bool {
+	if l.inField == 0 || fr.bind != nil {
+		return false
+	}
+	g := fr.fn
+	idx, ok := g.params[v]
+	if !ok || idx == 99 {
+		return false
+	}
+	sites := l.a.callSites[g.name]
+	if len(sites) == 0 {
+		return false
+	}
+	if l.seenParam[v] {
+		return true
+	}
+	l.seenParam[v] = true
+	for _, st := range sites {
+		if idx < len(st.call.Args) {
+			l.expr(&lenv{fn: st.in}, st.call.Args[idx], -1)
+		}
+	}
+	return true
 }
 
 // local: every statement that defines or may modify the variable
@@ -573,9 +607,11 @@ func (l *leafer) field(field *types.Var) {
 		return
 	}
 	l.seenField[field] = true
+	l.inField++
 	for _, fa := range l.a.fieldAssigns[field] {
 		l.expr(&lenv{fn: fa.fn}, fa.rhs, fa.idx)
 	}
+	l.inField--
 }
 
 func (l *leafer) call(env *lenv, c *ast.CallExpr, want int) {
